@@ -206,4 +206,28 @@ CHECKS = {
         "note": "Trusts DESIGN.md App. A.4/A.5; vertex positions compared "
                 "with stated float tolerances.",
     },
+    "C12": {
+        "engine": "E-STATE", "level": "model_checking",
+        "technique": "explicit-state BFS over store histories on a real "
+                     "directory (state = full directory tree), dict "
+                     "reference model, every reader configuration in every "
+                     "state; path-confinement lattice",
+        "text": "For each of 7 writer configurations (flat/deep x gzip "
+                "on/off x compresslevel, sharded accessor file methods) all "
+                "histories of store_file/store_chunk operations up to depth "
+                "3 (quick) / 4 (thorough) over 3 file names, 2 chunk "
+                "positions, 3 contents (incl. empty) and overwrite T/F are "
+                "explored breadth-first with deduplication on the complete "
+                "directory tree; in every state every name is fetched and "
+                "probed through accessors of all four layouts and compared "
+                "with a last-write-wins dict model; refused overwrites must "
+                "leave the tree unchanged; files must sit at the documented "
+                "paths with .gz members that are valid RFC 1952 streams of "
+                "the stored bytes, and nothing else may appear. A second "
+                "family changes the MIME type of a name between stores. "
+                "Confinement: 14 spellings x 4 operations x 3 accessors "
+                "with a sentinel sibling directory.",
+        "note": "Operations are sequential; contents are 3 byte strings; "
+                "one writer configuration per history.",
+    },
 }
